@@ -1,12 +1,12 @@
 """C05 - datasets survive serialization and disk round trips unchanged."""
 ID = "C05"
 LEVEL = "exploration"
-LEVEL_TEXT = 'Bounded: round trips through all three formats, all threshold settings and real .zanj files for enumerated datasets (all generators, mixed solution lengths incl. length-1/2, with/without metadata), and collections member by member; arrays compared with np.array_equal.'
+LEVEL_TEXT = 'PROVED (unbounded, z3) for the minimal format: _serialize_minimal writes, for every dataset length, grid size and mix of solution lengths, exactly the connection lists, the solution lengths and the solutions (padded), with shape agreement and int8/int32 range obligations (loop invariant); _load_minimal rebuilds mazes with exactly those arrays and the solution ends as start/end; the round-trip lemma (same count, order, connection structure, solution, start, end) follows from the two contracts. The concatenated-solutions format, the full format, the threshold selection and real files are decided by the bounded stand-in. Bounded: round trips through all three formats, all threshold settings and real .zanj files for enumerated datasets (all generators, mixed solution lengths incl. length-1/2, with/without metadata), and collections member by member; arrays compared with np.array_equal.'
 LEVEL_NOTE = 'Trusted: muutils/zanj internals. Configuration equality is judged on the configuration the dataset has after serialize() returned (minimal formats collect metadata in place: documented side effect).'
-TECHNIQUE = "bounded stand-in of the contract-based verifier: run-time checking of the real code against an independent executable statement over an enumerated scope (no function of this property is in the verified subset yet)"
-CONTRACT_MODULES = []
-PROVE = []
-ASSUMPTIONS = []
+TECHNIQUE = "contracts on the minimal-format codec discharged by z3 (pyvc) + bounded stand-in of the contract-based verifier: run-time checking of the real code against an independent executable statement over an enumerated scope (the proved functions are listed in evidence)"
+CONTRACT_MODULES = ["contracts.serialization"]
+PROVE = [("maze_dataset/dataset/maze_dataset.py", "MazeDataset._serialize_minimal"), ("maze_dataset/dataset/maze_dataset.py", "MazeDataset._load_minimal"), ("/verif/contracts/lemmas_src.py", "minimal_roundtrip")]
+ASSUMPTIONS = ["assumed contracts (dataclass/torch machinery, not verified against a body): SolvedMaze.__init__, MazeDataset.__init__; MazeDatasetConfig.load(serialize(cfg)) is cfg; json_serialize / load_item_recursive are the identity on in-memory arrays; the branch of _serialize_minimal that first collects generation metadata through the filter machinery is outside the verified subset (precondition: metadata already collected or absent)"]
 EXPLANATION = "see DESIGN.md C05"
 
 
